@@ -136,6 +136,9 @@ func runProm(tt *testing.T, tape *simrt.Tape, keep bool) (out simrt.Outcome) {
 			if r.Code != 200 || tape.Prob(1, 10) {
 				r.Error = errs[tape.Choose(len(errs))]
 			}
+			if tape.Prob(1, 8) {
+				r.Error = "" // code and error text are independent fields: the failure counter goes by the text alone
+			}
 			if tape.Prob(1, 15) {
 				r.BytesIn = 1<<40 + uint64(tape.Choose(1000)) // sums stay below 2^53: exact in float64
 			}
